@@ -308,7 +308,8 @@ def plan_crash_points(ref_ops, fmt, rng, n_inside, n_wsteps):
 
 
 def check_part(ctx, res, pool, base, fmt, n_steps, Jz, rng, n_inside, n_wsteps, n_second, second_classes=None,
-               use_model=True, safe_write=True):
+               use_model=True, safe_write=True, only=None):
+    """`only` = {'crash1': .., 'crash2': ..}: replay of exactly that case."""
     out = 'a.pkl' if fmt == 'pkl' else 'a.h5'
     params = sim_params(n_steps, Jz, safe_write)
     tagbase = dict(fmt=fmt, n_steps=n_steps, Jz=Jz, safe_write=safe_write)
@@ -330,6 +331,8 @@ def check_part(ctx, res, pool, base, fmt, n_steps, Jz, rng, n_inside, n_wsteps, 
     res.extra.setdefault('fs_steps', {})['%s/%d/safe=%s' % (fmt, n_steps, safe_write)] = len(ref_ops)
 
     pts, inside = plan_crash_points(ref_ops, fmt, rng, n_inside, n_wsteps)
+    if only is not None:
+        pts, inside = ([only['crash1']] if only.get('crash1') is not None else []), []
     jobs = [dict(base=base, fmt=fmt, params=params, out=out, refs=refs, crash1=cp, crash2=None, tag='first',
                  keep=True) for cp in pts + inside + [None]]
     results = pool.map(run_case, jobs)
@@ -374,7 +377,7 @@ def check_part(ctx, res, pool, base, fmt, n_steps, Jz, rng, n_inside, n_wsteps, 
             compare_model(res, case, fmt, ops, st, mo)
 
     # ---- second crash: resume from one directory per distinct first-crash state, crash in the first save
-    if not safe_write or n_second <= 0:
+    if not safe_write or n_second <= 0 or (only is not None and only.get('crash2') is None):
         return
     reps = []
     for sig, (cp, st, d) in sorted(first_states.items()):
@@ -412,6 +415,8 @@ def check_part(ctx, res, pool, base, fmt, n_steps, Jz, rng, n_inside, n_wsteps, 
         if w_idx:
             i = rng.choice(w_idx)
             crashes.append([i, rng.randrange(1, 64) / 64.0] if fmt == 'pkl' else [i, 'flush'])
+        if only is not None:
+            crashes = [only['crash2']] if only.get('crash2') is not None else []
         _, sv = split_trace(r2['trace2'])
         chunks2 = [chunks_of(s) for s in sv]
         for c2 in crashes:
@@ -476,5 +481,21 @@ def run(ctx, res, use_model=True, pool=None):
         if own:
             pool.close()
             pool.join()
+        shutil.rmtree(base, ignore_errors=True)
+    return res
+
+
+def replay_case(ctx, res, case, use_model=True):
+    """Re-run one recorded case (`part` = 'crash' or 'second-crash')."""
+    rng = ctx.sub_rng('crash-replay')
+    base = tempfile.mkdtemp(prefix='verif-c18-')
+    pool = multiprocessing.get_context('fork').Pool(2)
+    try:
+        check_part(ctx, res, pool, base, case['fmt'], case['n_steps'], case['Jz'], rng, 0, None, 10 ** 6,
+                   use_model=use_model, safe_write=case.get('safe_write', True),
+                   only={'crash1': case.get('crash1'), 'crash2': case.get('crash2')})
+    finally:
+        pool.close()
+        pool.join()
         shutil.rmtree(base, ignore_errors=True)
     return res
